@@ -1,5 +1,5 @@
 (* Static library for the GENERATED pipeline table (tools/props/_pipelines.py writes the table from
-   the __call__ bodies of the twelve PSD classes, from the functional estimators they call and from
+   the __call__ bodies of the thirteen PSD classes, from the functional estimators they call and from
    psd.py on every run).  This file holds: the vocabulary of the table, and a small operational
    interpreter giving each class' stored PSD as a function of
       - S        : what the functional estimator computes at sampling = 1 with no frequency scaling
@@ -14,14 +14,14 @@ Require Import Spectrum.Theory.Ops Spectrum.Theory.Sum Spectrum.Theory.Vec.
 
 (* ---------------- vocabulary ---------------- *)
 Inductive cls := Periodogram | Pcorrelogram | Pburg | Pyule | Pcovar | Pmodcovar | Parma | Pma
-               | Pminvar | Pmusic | Pev | MultiTapering.
+               | Pminvar | Pmusic | Pev | MultiTapering | Pdaniell.
 Definition all_classes : list cls :=
-  [Periodogram; Pcorrelogram; Pburg; Pyule; Pcovar; Pmodcovar; Parma; Pma; Pminvar; Pmusic; Pev; MultiTapering].
+  [Periodogram; Pcorrelogram; Pburg; Pyule; Pcovar; Pmodcovar; Parma; Pma; Pminvar; Pmusic; Pev; MultiTapering; Pdaniell].
 Definition cls_eqb (a b : cls) : bool :=
   match a, b with
   | Periodogram, Periodogram | Pcorrelogram, Pcorrelogram | Pburg, Pburg | Pyule, Pyule | Pcovar, Pcovar
   | Pmodcovar, Pmodcovar | Parma, Parma | Pma, Pma | Pminvar, Pminvar | Pmusic, Pmusic | Pev, Pev
-  | MultiTapering, MultiTapering => true
+  | MultiTapering, MultiTapering | Pdaniell, Pdaniell => true
   | _, _ => false
   end.
 
@@ -32,13 +32,13 @@ Inductive group := GModel    (* AR / MA / ARMA model spectra: value divided by t
 Definition group_of (c : cls) : group :=
   match c with
   | Pburg | Pyule | Pcovar | Pmodcovar | Parma | Pma => GModel
-  | Periodogram | Pcorrelogram | MultiTapering | Pmusic | Pev => GFixed
+  | Periodogram | Pcorrelogram | MultiTapering | Pmusic | Pev | Pdaniell => GFixed
   | Pminvar => GMinvar
   end.
 
 Inductive base := BFourier | BParametric | BSpectrum.
 (* the function that produces the PSD array *)
-Inductive festim := FSperiodogram | FCorrelogrampsd | FArma2psd | FMinvar | FEigen | FPmtm.
+Inductive festim := FSperiodogram | FCorrelogrampsd | FArma2psd | FMinvar | FEigen | FPmtm | FDaniell.
 (* what reaches the functional estimator's scale_by_freq / sampling (or T) parameter *)
 Inductive flagsrc := FlagNoParam | FlagConst (b : bool) | FlagSelf.
 Inductive sampsrc := SampNoParam | SampConst1 | SampSelf.
